@@ -113,6 +113,15 @@ static void do_cert(char **tok, int n)
     X509_set_version(x, ver == 1 ? 0 : 2);
     ASN1_INTEGER_set(X509_get_serialNumber(x), (v = opt(tok, n, "serial")) ? atol(v) : serial++);
     sn = mkname(opt(tok, n, "subj"), opt(tok, n, "nocn") != NULL);
+    if ((v = opt(tok, n, "cnhex")))
+    {
+        /* replace the common name by arbitrary octets */
+        unsigned char raw[512]; int rl = 0; const char *h;
+        int idx = X509_NAME_get_index_by_NID(sn, NID_commonName, -1);
+        if (idx >= 0) { X509_NAME_ENTRY *ne = X509_NAME_delete_entry(sn, idx); X509_NAME_ENTRY_free(ne); }
+        for (h = v; h[0] && h[1] && rl < 500; h += 2) { unsigned xx; sscanf(h, "%2x", &xx); raw[rl++] = (unsigned char) xx; }
+        X509_NAME_add_entry_by_NID(sn, NID_commonName, V_ASN1_UTF8STRING, raw, rl, -1, 0);
+    }
     in = mkname(opt(tok, n, "iss"), 0);
     X509_set_subject_name(x, sn);
     X509_set_issuer_name(x, in);
@@ -158,6 +167,38 @@ static void do_cert(char **tok, int n)
             char tmp[1024];
             snprintf(tmp, sizeof(tmp), "%s%s", opt(tok, n, "sancrit") ? "critical," : "", v);
             add_ext(x, NULL, NID_subject_alt_name, tmp);
+        }
+        v = opt(tok, n, "sanraw");
+        if (v && *v)
+        {
+            /* entries with arbitrary octets (NUL, control characters): type:<hex>[,type:<hex>...] */
+            GENERAL_NAMES *gens = sk_GENERAL_NAME_new_null();
+            char tmp[2048], *q2, *save = NULL;
+            snprintf(tmp, sizeof(tmp), "%s", v);
+            for (q2 = strtok_r(tmp, ",", &save); q2; q2 = strtok_r(NULL, ",", &save))
+            {
+                GENERAL_NAME *g = GENERAL_NAME_new();
+                char *colon = strchr(q2, ':');
+                unsigned char raw[512]; int rl = 0; const char *h;
+                if (!colon) continue;
+                *colon = 0;
+                for (h = colon + 1; h[0] && h[1] && rl < 500; h += 2) { unsigned x; sscanf(h, "%2x", &x); raw[rl++] = (unsigned char) x; }
+                if (!strcmp(q2, "ip"))
+                {
+                    ASN1_OCTET_STRING *os = ASN1_OCTET_STRING_new();
+                    ASN1_OCTET_STRING_set(os, raw, rl);
+                    GENERAL_NAME_set0_value(g, GEN_IPADD, os);
+                }
+                else
+                {
+                    ASN1_IA5STRING *ia = ASN1_IA5STRING_new();
+                    ASN1_STRING_set(ia, raw, rl);
+                    GENERAL_NAME_set0_value(g, !strcmp(q2, "email") ? GEN_EMAIL : !strcmp(q2, "uri") ? GEN_URI : GEN_DNS, ia);
+                }
+                sk_GENERAL_NAME_push(gens, g);
+            }
+            X509_add1_ext_i2d(x, NID_subject_alt_name, gens, 0, X509V3_ADD_DEFAULT);
+            sk_GENERAL_NAME_pop_free(gens, GENERAL_NAME_free);
         }
         v = opt(tok, n, "ski");
         if (v && atoi(v)) add_ext(x, NULL, NID_subject_key_identifier, "hash");
